@@ -267,6 +267,81 @@ Section WithFloat.
         end
     | _ => Err
     end.
+  (* ---- graph space: rdgraphspace{node,edge,}_to_dict / _from_dict; a node or edge states its units only when they differ from the graph's ---- *)
+  Record node_obj := { nd_vol : qty; nd_env : Z; nd_units : usys }.
+  Record edge_obj := { ed_i : Z; ed_j : Z; ed_sf : qty; ed_ds : qty; ed_units : usys }.
+  Record graph_obj := { gr_nodes : list node_obj; gr_edges : list edge_obj; gr_units : usys }.
+
+  Definition k_graph : str := [103; 114; 97; 112; 104]%N.
+  Definition dimSurface : dim := {| dS := 2; dT := 0; dQ := 0 |}.
+  Definition dimLength : dim := {| dS := 1; dT := 0; dQ := 0 |}.
+  Definition usys_same (a b : usys) : bool := space_eqb (us a) (us b) && time_eqb (ut a) (ut b) && amount_eqb (uq a) (uq b).
+  Definition units_if_differs (u parent : usys) : option jv := if usys_same u parent then None else Some (write_usys wr u).
+
+  Definition write_node (parent : usys) (n : node_obj) : jv :=
+    JObj (wr schema_node [Some (JStr (print_qty (nd_vol n))); Some (JInt (nd_env n)); units_if_differs (nd_units n) parent]).
+  Definition write_edge (parent : usys) (e : edge_obj) : jv :=
+    JObj (wr schema_edge [Some (JArr [JInt (ed_i e); JInt (ed_j e)]); Some (JStr (print_qty (ed_sf e))); Some (JStr (print_qty (ed_ds e)));
+                         units_if_differs (ed_units e) parent]).
+  Definition write_graph (g : graph_obj) : jv :=
+    JObj (wr schema_graph [Some (JStr k_graph); Some (JArr (map (write_node (gr_units g)) (gr_nodes g)));
+                          Some (JArr (map (write_edge (gr_units g)) (gr_edges g))); Some (write_usys wr (gr_units g))]).
+
+  Definition read_node (parent : usys) (v : jv) : res node_obj :=
+    match v with
+    | JObj dct =>
+        match read_fields jv schema_node dct with
+        | Ok [fvol; fenv; funits] =>
+            match read_units_field parent funits with
+            | Ok u =>
+                match (match fvol with None => Ok (one, (u, dimVolume)) | Some (JStr t) => read_qty dimVolume t | Some _ => Err end),
+                      (match fenv with None => Ok 0%Z | Some (JInt e) => Ok e | Some _ => Err end) with
+                | Ok vol, Ok env => Ok {| nd_vol := vol; nd_env := env; nd_units := u |}
+                | _, _ => Err
+                end
+            | Err => Err
+            end
+        | _ => Err
+        end
+    | _ => Err
+    end.
+
+  Definition read_edge (parent : usys) (v : jv) : res edge_obj :=
+    match v with
+    | JObj dct =>
+        match read_fields jv schema_edge dct with
+        | Ok [Some (JArr (JInt i :: JInt j :: _)); fsf; fds; funits] =>
+            match read_units_field parent funits with
+            | Ok u =>
+                match (match fsf with None => Ok (one, (u, dimSurface)) | Some (JStr t) => read_qty dimSurface t | Some _ => Err end),
+                      (match fds with None => Ok (one, (u, dimLength)) | Some (JStr t) => read_qty dimLength t | Some _ => Err end) with
+                | Ok sf, Ok ds => Ok {| ed_i := i; ed_j := j; ed_sf := sf; ed_ds := ds; ed_units := u |}
+                | _, _ => Err
+                end
+            | Err => Err
+            end
+        | _ => Err
+        end
+    | _ => Err
+    end.
+
+  Definition read_graph (parent : usys) (v : jv) : res graph_obj :=
+    match v with
+    | JObj dct =>
+        match read_fields jv schema_graph dct with
+        | Ok [_; Some (JArr ns); Some (JArr es); funits] =>
+            match read_units_field parent funits with
+            | Ok u =>
+                match read_list (read_node u) ns, read_list (read_edge u) es with
+                | Ok nodes, Ok edges => Ok {| gr_nodes := nodes; gr_edges := edges; gr_units := u |}
+                | _, _ => Err
+                end
+            | Err => Err
+            end
+        | _ => Err
+        end
+    | _ => Err
+    end.
 End WithFloat.
 
 (* ---- executable comparison of JSON values, for the correspondence ---- *)
